@@ -63,7 +63,8 @@ Fixpoint splineq_from (Bf : nat -> Q -> Q) (c : list Q) (i : nat) (x : Q) : Q :=
 Definition splineq (t c : list Q) (k : nat) (x : Q) : Q := splineq_from (Bq t (k - 1)) c 0 x.
 Definition splineq_left (t c : list Q) (k : nat) (x : Q) : Q := splineq_from (Blq t (k - 1)) c 0 x.
 
-(* yy_i is the Cox-de Boor value (either one-sided convention; they agree for k >= 2 on distinct knots) *)
+(* yy_i is the Cox-de Boor value with the (t_l, t_{l+1}] convention (C08_eval1_is_spline_left / _at_left_end); for k >= 2 on
+   distinct knots this is also the textbook right-continuous value (C08_spline_left_eq_spline) *)
 (* for orders >= 5 the (exponential, exact) textbook recursion is evaluated on every stride-th point only *)
 Fixpoint every_nth {A} (stride phase : nat) (l : list A) : list A :=
   match l with
@@ -77,7 +78,10 @@ Definition spec_values (bk : list Q) (k : nat) (coeff xe0 yy0 : list Q) : bool :
   let xe := every_nth st 0 xe0 in let yy := every_nth st 0 yy0 in
   (length xe0 =? length yy0)%nat &&
   all2 (fun x y => if in_range bk k x
-                   then close_rel rtol9 y (splineq bk coeff k x) || close_rel rtol9 y (splineq_left bk coeff k x)
+                   then (* the half-open convention of the reference implementation (IDL bspline_valu / pydl): segments are
+                           (t_l, t_{l+1}], the first one also owns its left end t_{k-1}: left-continuous spline, except at t_{k-1} *)
+                        if Qeq_bool x (nthQ bk (k - 1)) then close_rel rtol9 y (splineq bk coeff k x)
+                        else close_rel rtol9 y (splineq_left bk coeff k x)
                    else true) xe yy.
 
 Definition spec_mask (bk : list Q) (k : nat) (xe : list Q) (mask : list bool) : bool :=
